@@ -57,17 +57,20 @@ def row_of(r) -> str:
     return "data[" + r + "]"
 
 
-def expected(first, last, Hl, F, Fa, pf, S, Sa, ps):
+def expected(first, last, Hl, F, Fa, pf, S, Sa, ps, styles=(True, True, True, True)):
+    """styles = non-emptiness of (rtf_page.border_first, rtf_page.border_last, rtf_body.border_first, rtf_body.border_last): an edge
+    whose governing style is empty ('' = no border) gets nothing -- in particular NOT the style of another tier"""
+    p_first, p_last, b_first, b_last = styles
     fn_row = F and Fa and shown(pf, first, last)
     src_row = S and Sa and shown(ps, first, last)
     last_row = "source" if src_row else ("footnote" if fn_row else "data[-1]")
     if first and Hl:
-        top = {("data[0]", "top", "body.first")}        # header[0] <- page.first is R07.2's site
+        top = {("data[0]", "top", "body.first")} if b_first else set()        # header[0] <- page.first is R07.2's site
     elif first:
-        top = {("data[0]", "top", "page.first")}
+        top = {("data[0]", "top", "page.first")} if p_first else set()
     else:
-        top = {("data[0]", "top", "body.first")}
-    bottom = {(last_row, "bottom", "page.last" if last else "body.last")}
+        top = {("data[0]", "top", "body.first")} if b_first else set()
+    bottom = {(last_row, "bottom", "page.last" if last else "body.last")} if (p_last if last else b_last) else set()
     return top, bottom
 
 
@@ -75,8 +78,9 @@ def r07_1(ctx: Ctx) -> None:
     pm = ctx.pm
     fi = pm.func(FN)
     fixed = {
-        "bool(document.rtf_page.border_first)": [True], "bool(document.rtf_page.border_last)": [True],
-        "bool(document.rtf_body.border_first)": [True], "bool(document.rtf_body.border_last)": [True],
+        # '' (no border) is a valid value of the four tier styles: their emptiness is enumerated
+        "bool(document.rtf_page.border_first)": [True, False], "bool(document.rtf_page.border_last)": [True, False],
+        "bool(document.rtf_body.border_first)": [True, False], "bool(document.rtf_body.border_last)": [True, False],
         "isinstance(document.rtf_body.border_last, list)": [True], "isinstance(document.rtf_body.border_first, list)": [True],
         "page.data.height == 0": [False],
         # attributes of the per-page copy: their own truthiness only selects initialisation code
@@ -138,7 +142,9 @@ def r07_1(ctx: Ctx) -> None:
         # the user's own border_top overriding body.first on selected columns is the documented per-cell behaviour
         got_top = {(r, s, "body.first" if st == "body.top(user)" else st) for r, s, st in got_top}
         # enumerate the unconsulted semantic atoms (the code did not look at them, so the result is the same for all values)
-        for first, last, Hl, Fa_, Sa_, pf_, ps_ in itertools.product([first0] if first0 is not None else [True, False], [last0] if last0 is not None else [True, False],
+        st0 = [v.get(f"bool(document.{t}.{a})") for t, a in (("rtf_page", "border_first"), ("rtf_page", "border_last"), ("rtf_body", "border_first"), ("rtf_body", "border_last"))]
+        for styles in itertools.product(*[[x] if x is not None else [True, False] for x in st0]):
+          for first, last, Hl, Fa_, Sa_, pf_, ps_ in itertools.product([first0] if first0 is not None else [True, False], [last0] if last0 is not None else [True, False],
                                                                       [Hl0] if Hl0 is not None else [True, False],
                                                                       [Fa] if Fa is not None else [True, False], [Sa] if Sa is not None else [True, False],
                                                                       [pf] if pf is not None else PL, [ps] if ps is not None else PL):
@@ -146,12 +152,12 @@ def r07_1(ctx: Ctx) -> None:
                 continue     # as_table irrelevant without a footnote: count the configuration once
             if not S and Sa is None and Sa_ is False:
                 continue
-            cfg = (first, last, Hl, F, Fa_ if F else None, pf_ if F else None, S, Sa_ if S else None, ps_ if S else None)
+            cfg = (first, last, Hl, F, Fa_ if F else None, pf_ if F else None, S, Sa_ if S else None, ps_ if S else None) + (() if all(styles) else (styles,))
             if cfg in seen_cfg:
                 continue
             seen_cfg.add(cfg)
             n_cfg += 1
-            etop, ebot = expected(first, last, Hl, F, bool(Fa_), pf_, S, bool(Sa_), ps_)
+            etop, ebot = expected(first, last, Hl, F, bool(Fa_), pf_, S, bool(Sa_), ps_, styles)
             if got_top != etop:
                 key = ("top", tuple(sorted(etop)), tuple(sorted(got_top)), f"first={first}")
                 classes.setdefault(key, []).append(cfg)
@@ -166,7 +172,7 @@ def r07_1(ctx: Ctx) -> None:
     for key, cfgs in sorted(classes.items(), key=lambda kv: str(kv[0])):
         edge, exp, got, flag = key
         ex = cfgs[0]
-        exdesc = dict(zip(("first", "last", "header", "footnote", "fn_as_table", "page_footnote", "source", "src_as_table", "page_source"), ex))
+        exdesc = dict(zip(("first", "last", "header", "footnote", "fn_as_table", "page_footnote", "source", "src_as_table", "page_source", "non-empty(page.first, page.last, body.first, body.last)"), ex))
         ctx.instance("R07.1", fi.where(), f"{edge} edge disagreement class ({len(cfgs)} configurations): expected {list(exp)} got {list(got)}; e.g. {exdesc}")
         ctx.violation("R07.1", FN, f"{edge}|expected={list(exp)}|got={list(got)}|{flag}", fi.where(),
                       f"{edge} edge: on {len(cfgs)} configuration(s) the hierarchy requires {list(exp)} but the code applies {list(got) or 'nothing'}; "
@@ -196,12 +202,26 @@ def _params(fi) -> list[str]:
     return [a.arg for a in fi.node.args.args if a.arg not in ("self", "cls")]
 
 
+def _required(fi) -> list[str]:
+    """the parameters a caller must pass (opt-in parameters with defaults are evaluated with their defaults)"""
+    from .c06 import required_params
+    return required_params(fi, drop_self=True)
+
+
 def _copies(r) -> dict[str, tuple[str, str]]:
     """copy path -> (original path, deep|shallow) of one run"""
     return {e[1]: (e[2], e[3]) for e in r.effects if e[0] == "copy"}
 
 
 # ---------------------------------------------------------------------------------------------------- R07.2
+
+def _flat_syms(x):
+    if isinstance(x, Sym):
+        yield x
+    elif isinstance(x, (list, tuple)):
+        for y in x:
+            yield from _flat_syms(y)
+
 
 _HEADER_SHAPES = ("is_nested_header_list", "is_flat_header_list", "is_single_header")
 
@@ -214,7 +234,7 @@ def r07_2(ctx: Ctx) -> None:
     from .c06 import loop_of
     pm = ctx.pm
     fi = pm.func("PageRenderer._render_column_headers")
-    ps = _params(fi)
+    ps = _required(fi)
     if len(ps) != 2:
         ctx.gap("R07.2", "_render_column_headers no longer takes (document, page)")
         return
@@ -259,8 +279,9 @@ def r07_2(ctx: Ctx) -> None:
                         bad.setdefault("guard applies to header " + ("at any position" if pos is None else "after the first"),
                                        f"rtf_page.border_first is applied to header `{orig}` ({shape}) " + ("without consulting its position" if pos is None else "that is not the first one")
                                        + "; only the first header row carries the page's top edge")
-                    if lp not in orig:
-                        bad.setdefault("guard applies to header " + orig[:60], f"inside iteration {lp} the border is written into a copy of `{orig}`, not of the iteration's own header")
+                    own = {x.path for x in _flat_syms(r.loop_elems.get(lp))}
+                    if orig not in own:
+                        ctx.gap("R07.2", f"inside iteration {lp} the border is written into a copy of `{orig}`, which was not re-identified as the iteration's own header ({sorted(own)[:2]})")
                 elif orig != f"{doc}.rtf_column_header":
                     ctx.gap("R07.2", f"the header `{orig}` that receives the page's top edge outside a loop over the headers was not re-identified")
                 if v.get(f"bool({doc}.rtf_page.border_first)") is False:
@@ -539,7 +560,7 @@ def r07_4(ctx: Ctx) -> None:
         ctx.gap("R07.4", f"where the per-page attributes of {FN} come from could not be re-identified ({sorted(set(desc))[:3]})")
     # ---- (b) one edge = expand the attribute to the page shape, update exactly (row, col), store back
     ap = pm.func("PageFeatureProcessor._apply_border_to_cell")
-    ps = _params(ap)
+    ps = _required(ap)
     if len(ps) != 6:
         ctx.gap("R07.4", "_apply_border_to_cell no longer takes (attrs, row, col, side, style, shape)")
     else:
@@ -575,7 +596,7 @@ def r07_4(ctx: Ctx) -> None:
     # ---- (c) update_cell over symbolic (row, column, value): the matrix becomes the expansion self.to_list() and exactly the element
     #      [row][column] of that expansion is written; the rows of the expansion are pairwise distinct objects (ownership analysis of to_list)
     uc = pm.func("BroadcastValue.update_cell")
-    ps = _params(uc)
+    ps = _required(uc)
     if len(ps) != 3:
         ctx.gap("R07.4", "BroadcastValue.update_cell no longer takes (row, column, value)")
     else:
@@ -674,7 +695,7 @@ def r07_5(ctx: Ctx) -> None:
     from .c06 import loop_of
     pm = ctx.pm
     fi = pm.func("UnifiedRTFEncoder._encode_multi_section")
-    ps = _params(fi)
+    ps = _required(fi)
     if len(ps) != 1:
         ctx.gap("R07.5", "_encode_multi_section no longer takes (document)")
         return
@@ -848,7 +869,7 @@ def r07_6(ctx: Ctx) -> None:
                 ctx.violation("R07.6", fi.short, "processor argument", fi.where(c), f"the processor is applied to `{unparse(pa)[:60]}`, not to a page of the pagination")
     # process = store this page's border attributes, return the page
     p = pm.func("PageFeatureProcessor.process")
-    ps = _params(p)
+    ps = _required(p)
     if len(ps) != 2:
         ctx.gap("R07.6", "PageFeatureProcessor.process no longer takes (document, page)")
     else:
@@ -904,7 +925,8 @@ def check(ctx: Ctx) -> None:
         "returns (no row object repeated), no other border stores, data cells read their own (i,j). R07.5 multi-section first/last clearing: ONE generic "
         "iteration of the section loop over (is first, is last). R07.6 path property of the page loop.")
     ctx.assume("a configured column-header list renders at least one header row on the first page (the Hl/Hr distinction of DESIGN.md appendix C is not decided)")
-    ctx.assume("border styles rtf_page.border_first/last and rtf_body.border_first/last are non-empty (when empty there is nothing to apply)")
+    ctx.assume("an empty tier style ('' = no border) of rtf_page.border_first/last or rtf_body.border_first/last means that nothing is applied to the edge it governs (the emptiness of the "
+               "four styles is enumerated; a style of another tier must not take its place)")
     ctx.assume("conditions are independent atoms; in R07.2 / R07.5 conditions that mention none of the relevant names are pinned to one value per regime (all true / all false)")
     ctx.undecided("border widths and colours (never emitted, see C09); page_by without column headers (excluded by the property for the top-edge clause)")
     r07_1(ctx)
